@@ -181,6 +181,7 @@ def run(plan: dict) -> dict:
     digests: dict[str, Any] = {}
     executed: list[dict] = []
     garbage: list = []
+    cost: dict[str, float] = {}
     nsites = 9000
     late_done = False
     for idx, op in enumerate(plan["ops"]):
@@ -232,11 +233,13 @@ def run(plan: dict) -> dict:
             k = int(fault["k"]) if "k" in fault else int(float(fault["k_frac"]) * nsites)
             E = exc_class(fault.get("exc", "SimFault"))
             inj.start(k, lambda: E("sim: injected"))
+        t_conv = time.perf_counter()
         try:
             proto = to_onnx(prog.fn, list(prog.inputs), **kw)
         except BaseException as e:  # noqa: BLE001
             raised = e
         finally:
+            cost[key] = max(cost.get(key, 0.0), time.perf_counter() - t_conv)  # diagnostics only, never logged
             if fault and inj is not None:
                 inj.stop()
                 if inj.fired:
@@ -290,6 +293,7 @@ def run(plan: dict) -> dict:
         "stats": dict(stats),
         "log_digest": log.digest(),
         "digests": digests,
+        "cost_s": {k: round(v, 3) for k, v in cost.items()},
         "schedule_sig": digest([plan.get("hashseed"), plan.get("import_perm_seed"), sched, [(o.get("op"), o.get("pid"), bool(o.get("fault"))) for o in plan["ops"]]]),
         "samples": [{"schedule": sched, "hashseed": plan.get("hashseed"), "import_perm_seed": plan.get("import_perm_seed"), "ops_head": plan["ops"][:6]}],
     }
@@ -305,7 +309,7 @@ _BIAS = ("nchw", "transpose", "conv", "resblock", "attention", "onnx_functions",
 
 def requests(registry: list[str], tier: str, seed: int) -> list[dict]:
     r = rng("c14-req", seed)
-    n = int(os.environ.get("VERIF_C14_REQUESTS", "600" if tier == "thorough" else "130"))
+    n = int(os.environ.get("VERIF_C14_REQUESTS", "600" if tier == "thorough" else "90"))
     biased = [p for p in registry if any(b in p.lower() for b in _BIAS)]
     others = [p for p in registry if p not in set(biased)]
     r.shuffle(biased)
@@ -390,12 +394,21 @@ def main(tier: str) -> int:
                 reference[key] = {"digest": va["digest"], "eligible": bool(vb and vb.get("digest") == va["digest"])}
             else:
                 reference[key] = {"digest": None, "eligible": False, "raised": va.get("raised")}
+    # quick tier: leave out requests whose canonical conversion is slow
+    slow_cut = float(os.environ.get("VERIF_C14_SLOW_S", "1e9" if tier == "thorough" else "1.5"))
+    cost: dict[str, float] = {}
+    for r_ in cres:
+        if r_:
+            for k_, v_ in r_.get("cost_s", {}).items():
+                cost[k_] = max(cost.get(k_, 0.0), v_)
+    n_before = len(reqs)
+    reqs = [q for q in reqs if cost.get(_reqkey(q), 0.0) <= slow_cut]
     n_elig = sum(1 for v in reference.values() if v["eligible"])
     n_inelig = sum(1 for v in reference.values() if v["digest"] and not v["eligible"])
     canon_viol = [v for r in cres if r for v in r.get("violations", [])]
     # stage 2: simulated runs
-    n_runs = int(os.environ.get("VERIF_C14_RUNS", "160" if tier == "thorough" else "40"))
-    n_meas = 60 if tier == "thorough" else 30
+    n_runs = int(os.environ.get("VERIF_C14_RUNS", "160" if tier == "thorough" else "28"))
+    n_meas = 60 if tier == "thorough" else 24
     plans = []
     for i in range(n_runs):
         p = gen_run(seed, i, reqs, n_meas)
@@ -433,6 +446,7 @@ def main(tier: str) -> int:
             "samples": samples[:4] or [{"note": "none"}],
             "exhaustive": False,
             "requests": len(reqs),
+            "requests_dropped_as_slow_in_this_tier": n_before - len(reqs),
             "requests_eligible_cross_process": n_elig,
             "requests_ineligible_unseeded_construction": n_inelig,
             "compared_with_reference": stats.get("compared_with_reference", 0),
